@@ -276,6 +276,65 @@ type brokenBox struct {
 	resumeAt        tree.ResumeStack
 }
 
+// brokenOutOfFlowMap stores the out-of-flow boxes broken by a page break,
+// keyed by their laid out part.
+// Like the Python dict it is ported from, it is iterated in insertion order:
+// the order in which the remaining parts are laid out on the next page decides
+// their position (and paint order), so it must not follow Go's randomised map
+// iteration.
+type brokenOutOfFlowMap struct {
+	keys []Box
+	m    map[Box]brokenBox
+}
+
+func newBrokenOutOfFlowMap() *brokenOutOfFlowMap {
+	return &brokenOutOfFlowMap{m: make(map[Box]brokenBox)}
+}
+
+// set keeps the position of an existing key
+func (b *brokenOutOfFlowMap) set(key Box, v brokenBox) {
+	if _, has := b.m[key]; !has {
+		b.keys = append(b.keys, key)
+	}
+	b.m[key] = v
+}
+
+func (b *brokenOutOfFlowMap) delete(key Box) {
+	if _, has := b.m[key]; !has {
+		return
+	}
+	delete(b.m, key)
+	for i, k := range b.keys {
+		if k == key {
+			b.keys = append(b.keys[:i], b.keys[i+1:]...)
+			break
+		}
+	}
+}
+
+func (b *brokenOutOfFlowMap) clear() {
+	b.keys = b.keys[:0]
+	for k := range b.m {
+		delete(b.m, k)
+	}
+}
+
+// values returns the stored values, in insertion order
+func (b *brokenOutOfFlowMap) values() []brokenBox {
+	out := make([]brokenBox, len(b.keys))
+	for i, k := range b.keys {
+		out[i] = b.m[k]
+	}
+	return out
+}
+
+// update inserts the content of [other], in its insertion order
+func (b *brokenOutOfFlowMap) update(other *brokenOutOfFlowMap) {
+	for _, k := range other.keys {
+		b.set(k, other.m[k])
+	}
+}
+
 // layoutContext stores the global context needed during layout,
 // such as various caches.
 type layoutContext struct {
@@ -294,7 +353,7 @@ type layoutContext struct {
 	pageMaker           []tree.PageMaker
 	excludedShapes      *[]*bo.BoxFields
 	excludedShapesLists [][]*bo.BoxFields
-	brokenOutOfFlow     map[Box]brokenBox
+	brokenOutOfFlow     *brokenOutOfFlowMap
 
 	footnotes            []Box
 	currentPageFootnotes []Box
@@ -329,7 +388,7 @@ func newLayoutContext(html *tree.HTML, stylesheets []tree.CSS,
 	self.TargetCollector = tree.NewTargetCollector()
 	self.counterStyle = counterStyle
 	self.runningElements = make(map[string]map[int][]Box)
-	self.brokenOutOfFlow = make(map[Box]brokenBox)
+	self.brokenOutOfFlow = newBrokenOutOfFlowMap()
 
 	// Cache
 	self.stringSet = make(map[string]map[int][]string)
